@@ -71,6 +71,9 @@ Init == \E cls \in Classes, P \in PieceLens : \E size \in 1 .. (MaxPieces * P + 
             st = InitSt(cls, size, P)
 Next == st.pc # "done" /\ st' = Step(st)
 Spec == Init /\ [][Next]_st
+\* liveness: the iteration ends for every input (weak fairness = the caller keeps calling next())
+FairSpec == Spec /\ WF_st(Next)
+Terminates == <>(st.pc = "done")
 
 \* C02: root and piece layer are those of BEP 52
 RootCorrect  == st.pc = "done" => st.root = RefRoot(1, st.size, st.P)
